@@ -1,3 +1,299 @@
 package main
 
-func e2eRun(c *Ctx, prop string) {}
+import (
+	"encoding/binary"
+	"errors"
+	"fmt"
+	"io"
+	"net"
+	"sync"
+	"time"
+)
+
+// A fake MySQL master: just enough of the protocol for the forked driver's
+// connect + COM_QUERY + COM_BINLOG_DUMP, with its own packet reader/writer.
+
+type dumpReq struct {
+	Pos      uint32
+	Flags    uint16
+	ServerID uint32
+	File     string
+}
+
+type action struct {
+	kind string // event eof err close reset hang short outofseq gate
+	data []byte // event bytes
+	code uint16
+	msg  string
+	gate chan struct{} // gate: wait until closed / signalled
+}
+
+type masterConn struct {
+	queries      []string
+	dumps        []dumpReq
+	order        []string // "query" / "dump" / "quit" in arrival order
+	quit         bool
+	clientClosed bool // the client closed its end (observed by the master)
+	done         chan struct{}
+}
+
+type fakeMaster struct {
+	ln     net.Listener
+	mu     sync.Mutex
+	conns  []*masterConn
+	script func(connIdx int, req dumpReq) []action
+	wg     sync.WaitGroup
+}
+
+func newFakeMaster(script func(connIdx int, req dumpReq) []action) (*fakeMaster, error) {
+	ln, err := net.Listen("tcp", "127.0.0.1:0")
+	if err != nil {
+		return nil, err
+	}
+	m := &fakeMaster{ln: ln, script: script}
+	go m.acceptLoop()
+	return m, nil
+}
+
+func (m *fakeMaster) dsn() string {
+	return fmt.Sprintf("u:p@tcp(%s)/db", m.ln.Addr().String())
+}
+
+func (m *fakeMaster) close() {
+	m.ln.Close()
+}
+
+func (m *fakeMaster) acceptLoop() {
+	for {
+		c, err := m.ln.Accept()
+		if err != nil {
+			return
+		}
+		mc := &masterConn{done: make(chan struct{})}
+		m.mu.Lock()
+		idx := len(m.conns)
+		m.conns = append(m.conns, mc)
+		m.mu.Unlock()
+		m.wg.Add(1)
+		go func() {
+			defer m.wg.Done()
+			defer close(mc.done)
+			m.serve(c, mc, idx)
+		}()
+	}
+}
+
+func (m *fakeMaster) conn(i int) *masterConn {
+	m.mu.Lock()
+	defer m.mu.Unlock()
+	if i < len(m.conns) {
+		return m.conns[i]
+	}
+	return nil
+}
+
+func (m *fakeMaster) nconns() int {
+	m.mu.Lock()
+	defer m.mu.Unlock()
+	return len(m.conns)
+}
+
+func writePacket(c net.Conn, seq byte, payload []byte) error {
+	for {
+		n := len(payload)
+		if n > 0xffffff {
+			n = 0xffffff
+		}
+		hdr := []byte{byte(n), byte(n >> 8), byte(n >> 16), seq}
+		if _, err := c.Write(append(hdr, payload[:n]...)); err != nil {
+			return err
+		}
+		seq++
+		payload = payload[n:]
+		if n < 0xffffff {
+			return nil
+		}
+	}
+}
+
+func readPacket(c net.Conn) (byte, []byte, error) {
+	hdr := make([]byte, 4)
+	if _, err := io.ReadFull(c, hdr); err != nil {
+		return 0, nil, err
+	}
+	n := int(hdr[0]) | int(hdr[1])<<8 | int(hdr[2])<<16
+	p := make([]byte, n)
+	if _, err := io.ReadFull(c, p); err != nil {
+		return 0, nil, err
+	}
+	return hdr[3], p, nil
+}
+
+var okPacket = []byte{0x00, 0x00, 0x00, 0x02, 0x00, 0x00, 0x00}
+
+func handshakePacket() []byte {
+	var b []byte
+	b = append(b, 0x0a)
+	b = append(b, []byte("5.7.0-fake\x00")...)
+	b = append(b, 1, 0, 0, 0)
+	b = append(b, []byte("abcdefgh")...)
+	b = append(b, 0x00)
+	caps := uint32(0x00088209) // LONG_PASSWORD|CONNECT_WITH_DB|PROTOCOL_41|SECURE_CONNECTION|PLUGIN_AUTH
+	b = append(b, byte(caps), byte(caps>>8))
+	b = append(b, 33)
+	b = append(b, 0x02, 0x00)
+	b = append(b, byte(caps>>16), byte(caps>>24))
+	b = append(b, 21)
+	b = append(b, make([]byte, 10)...)
+	b = append(b, []byte("ijklmnopqrst\x00")...)
+	b = append(b, []byte("mysql_native_password\x00")...)
+	return b
+}
+
+func (m *fakeMaster) serve(c net.Conn, mc *masterConn, idx int) {
+	defer c.Close()
+	if err := writePacket(c, 0, handshakePacket()); err != nil {
+		return
+	}
+	if _, _, err := readPacket(c); err != nil { // handshake response (ignored)
+		return
+	}
+	if err := writePacket(c, 2, okPacket); err != nil {
+		return
+	}
+	for {
+		_, p, err := readPacket(c)
+		if err != nil {
+			m.mu.Lock()
+			mc.clientClosed = true
+			m.mu.Unlock()
+			return
+		}
+		if len(p) == 0 {
+			continue
+		}
+		switch p[0] {
+		case 0x03: // COM_QUERY
+			m.mu.Lock()
+			mc.queries = append(mc.queries, string(p[1:]))
+			mc.order = append(mc.order, "query")
+			m.mu.Unlock()
+			if err := writePacket(c, 1, okPacket); err != nil {
+				return
+			}
+		case 0x01: // COM_QUIT
+			m.mu.Lock()
+			mc.quit = true
+			mc.order = append(mc.order, "quit")
+			m.mu.Unlock()
+			// wait for the client to close
+			io.Copy(io.Discard, c)
+			m.mu.Lock()
+			mc.clientClosed = true
+			m.mu.Unlock()
+			return
+		case 0x12: // COM_BINLOG_DUMP
+			if len(p) < 11 {
+				return
+			}
+			req := dumpReq{Pos: binary.LittleEndian.Uint32(p[1:5]), Flags: binary.LittleEndian.Uint16(p[5:7]),
+				ServerID: binary.LittleEndian.Uint32(p[7:11]), File: string(p[11:])}
+			m.mu.Lock()
+			mc.dumps = append(mc.dumps, req)
+			mc.order = append(mc.order, "dump")
+			m.mu.Unlock()
+			if m.runScript(c, mc, m.script(idx, req)) {
+				return
+			}
+		default:
+			return
+		}
+	}
+}
+
+// runScript returns true when the connection is finished.
+func (m *fakeMaster) runScript(c net.Conn, mc *masterConn, acts []action) bool {
+	seq := byte(1)
+	watchClient := func() {
+		// after the terminal packet the master keeps reading: it sees COM_QUIT and/or the close
+		for {
+			_, p, err := readPacket(c)
+			if err != nil {
+				m.mu.Lock()
+				mc.clientClosed = true
+				m.mu.Unlock()
+				return
+			}
+			if len(p) > 0 && p[0] == 0x01 {
+				m.mu.Lock()
+				mc.quit = true
+				mc.order = append(mc.order, "quit")
+				m.mu.Unlock()
+			}
+		}
+	}
+	for _, a := range acts {
+		switch a.kind {
+		case "event":
+			if err := writePacket(c, seq, append([]byte{0x00}, a.data...)); err != nil {
+				m.mu.Lock()
+				mc.clientClosed = true
+				m.mu.Unlock()
+				return true
+			}
+			seq += byte(1 + (len(a.data)+1)/0xffffff)
+		case "gate":
+			select {
+			case <-a.gate:
+			case <-time.After(20 * time.Second):
+			}
+		case "eof":
+			writePacket(c, seq, []byte{0xfe, 0x00, 0x00, 0x02, 0x00})
+			watchClient()
+			return true
+		case "err":
+			p := []byte{0xff, byte(a.code), byte(a.code >> 8), '#', 'H', 'Y', '0', '0', '0'}
+			p = append(p, []byte(a.msg)...)
+			writePacket(c, seq, p)
+			watchClient()
+			return true
+		case "close":
+			return true
+		case "reset":
+			if tc, ok := c.(*net.TCPConn); ok {
+				tc.SetLinger(0)
+			}
+			return true
+		case "short":
+			// a length prefix larger than the bytes that follow, then close
+			c.Write([]byte{50, 0, 0, seq, 0x00, 1, 2, 3})
+			return true
+		case "outofseq":
+			writePacket(c, seq+5, append([]byte{0x00}, a.data...))
+			watchClient()
+			return true
+		case "hang":
+			watchClient()
+			return true
+		}
+	}
+	watchClient()
+	return true
+}
+
+var errDeadline = errors.New("deadline")
+
+// within runs f and reports whether it returned before the deadline.
+func within(d time.Duration, f func()) bool {
+	done := make(chan struct{})
+	go func() {
+		defer close(done)
+		f()
+	}()
+	select {
+	case <-done:
+		return true
+	case <-time.After(d):
+		return false
+	}
+}
